@@ -212,6 +212,8 @@ pub fn via_constructors(kind: &str, input: &[u8]) -> Vec<(&'static str, Vec<Stri
             let fc = |c: &[i32]| format!("clause {}", lits(c));
             drive!("from_read", cnf::Parser::<i32>::from_read(input, cnf::Config::default()), fh, fc);
             drive!("from_buf_reader", cnf::Parser::<i32>::from_buf_reader(prefilled(5), cnf::Config::default()), fh, fc);
+            drive!("from_buf_reader(capacity 0)", cnf::Parser::<i32>::from_buf_reader(prefilled(0), cnf::Config::default()), fh, fc);
+            drive!("from_buf_reader(capacity 1)", cnf::Parser::<i32>::from_buf_reader(prefilled(1), cnf::Config::default()), fh, fc);
             drive!("from_boxed_dyn_read", cnf::Parser::<i32>::from_boxed_dyn_read(Box::new(input), cnf::Config::default()), fh, fc);
         }
         "wcnf" => {
@@ -219,6 +221,8 @@ pub fn via_constructors(kind: &str, input: &[u8]) -> Vec<(&'static str, Vec<Stri
             let fc = |c: (u64, &[i32])| format!("clause w={} {}", c.0, lits(c.1));
             drive!("from_read", wcnf::Parser::<i32>::from_read(input, wcnf::Config::default()), fh, fc);
             drive!("from_buf_reader", wcnf::Parser::<i32>::from_buf_reader(prefilled(5), wcnf::Config::default()), fh, fc);
+            drive!("from_buf_reader(capacity 0)", wcnf::Parser::<i32>::from_buf_reader(prefilled(0), wcnf::Config::default()), fh, fc);
+            drive!("from_buf_reader(capacity 1)", wcnf::Parser::<i32>::from_buf_reader(prefilled(1), wcnf::Config::default()), fh, fc);
             drive!("from_boxed_dyn_read", wcnf::Parser::<i32>::from_boxed_dyn_read(Box::new(input), wcnf::Config::default()), fh, fc);
         }
         "gcnf" => {
@@ -226,6 +230,8 @@ pub fn via_constructors(kind: &str, input: &[u8]) -> Vec<(&'static str, Vec<Stri
             let fc = |c: (usize, &[i32])| format!("clause g={} {}", c.0, lits(c.1));
             drive!("from_read", gcnf::Parser::<i32>::from_read(input, gcnf::Config::default()), fh, fc);
             drive!("from_buf_reader", gcnf::Parser::<i32>::from_buf_reader(prefilled(5), gcnf::Config::default()), fh, fc);
+            drive!("from_buf_reader(capacity 0)", gcnf::Parser::<i32>::from_buf_reader(prefilled(0), gcnf::Config::default()), fh, fc);
+            drive!("from_buf_reader(capacity 1)", gcnf::Parser::<i32>::from_buf_reader(prefilled(1), gcnf::Config::default()), fh, fc);
             drive!("from_boxed_dyn_read", gcnf::Parser::<i32>::from_boxed_dyn_read(Box::new(input), gcnf::Config::default()), fh, fc);
         }
         _ => {}
